@@ -342,6 +342,52 @@ def run_scenario_case(ctx: Ctx | None, scenario: str, shard: int, nshards: int, 
                         if ctx is not None:
                             ctx.case(hash((scenario, ci, variant)) & ((1 << 60) - 1), d[22] in b.signed_ids,
                                      cls=f"{scenario}:{variant}")
+            if scenario == "dht" and (only is None and shard == 0 or only is not None and only.get("inflight")):
+                # an ANSWER is judged while the request it answers is still pending at the receiver: the receiver pings a
+                # neighbour, the neighbour's genuine ping-response is held back, mutants of it (among them: signed by the
+                # neighbour itself but carrying another key) arrive first, the genuine one last
+                from ipv8.dht.routing import Node as DHTNode
+                from ipv8.messaging.interfaces.udp.endpoint import UDPv4Address
+                nb = next(nd for nd in b.env.nodes if nd is not b.node)
+                held: list = []
+
+                def hold(fl):
+                    if fl.origin is nb.raw_endpoint and fl.dst == b.node.address and len(fl.data) > 22 and fl.data[22] == 2:
+                        held.append(fl)
+                        return []
+                    return None
+                nb.raw_endpoint.open_now()
+                b.env.net.on_send = hold
+                b.ov.ping(DHTNode(nb.key.pub().key_to_bin(), UDPv4Address(*nb.address)))
+                await b.env.net.settle()
+                b.env.net.on_send = None
+                nb.raw_endpoint.close()
+                if held:
+                    d, src = held[0].data, held[0].src
+                    base = {"scenario": scenario, "index": -2, "msg_id": d[22], "inflight": 1}
+                    known = [("receiver", b.ov.my_peer.public_key.key_to_bin())] + \
+                        [(f"verified_peer{i}", p.public_key.key_to_bin()) for i, p in enumerate(
+                            sorted((p for p in b.ov.get_peers() if p.public_key.key_to_bin() != nb.key.pub().key_to_bin()),
+                                   key=lambda p: p.public_key.key_to_bin())[:2])]
+                    spriv = nb.key.key_to_bin()
+                    for op, pos, x in mutations(d, [dd for _, dd in b.corpus], ids, False, b.sibling.get_prefix(), tuple(known),
+                                                spriv if spriv.startswith(b"LibNaCLSK:") else None):
+                        if op.split(":")[0] in ("flip", "truncate") and pos % 16:
+                            continue
+                        if only is not None and (op, pos) != (only["op"], only["pos"]):
+                            continue
+                        case = {**base, "op": op, "pos": pos}
+                        try:
+                            nt = await b.judge(src, x, case)
+                        except Violation as v:
+                            if ctx is None:
+                                raise
+                            ctx.violation(v)
+                            nt = True
+                        if ctx is not None:
+                            ctx.case(hash((scenario, "inflight", op, pos)) & ((1 << 60) - 1), nt, cls=f"{scenario}:inflight:" + op.split(":")[0])
+                    if only is None:
+                        await b.judge(src, d, {**base, "op": "original", "pos": 0}, original=True)
             if not b.corpus:
                 raise HarnessError(f"scenario {scenario} produced no datagram for the observed node")
         finally:
